@@ -11,7 +11,7 @@ Open Scope Z_scope.
 
 Theorem run_ops_from_file_closed c ms :
   wf c = true -> anim c = true -> Forall2 (frame_decodes_spec (fst (dims c)) (snd (dims c))) (frames c) ms ->
-  fst (dims c) * snd (dims c) * 4 < 4294967296 ->
+  fst (dims c) * snd (dims c) * 4 < 18446744073709551616 ->
   Anim_play.valid_file (anim_file c ms) /\
   exists dec, M.new (serialize c) = Ok dec /\
     forall ops buf, len buf = buffer_size c ->
@@ -21,7 +21,7 @@ Proof. intros Hwf Ha HF Hc. exact (run_ops_from_file Vp8Decode.decode_frame c ms
 
 Theorem history_independent_from_file_closed c ms :
   wf c = true -> anim c = true -> Forall2 (frame_decodes_spec (fst (dims c)) (snd (dims c))) (frames c) ms ->
-  fst (dims c) * snd (dims c) * 4 < 4294967296 ->
+  fst (dims c) * snd (dims c) * 4 < 18446744073709551616 ->
   exists dec, M.new (serialize c) = Ok dec /\
     forall ops buf, len buf = buffer_size c ->
       run_ops Vp8Decode.decode_frame dec ops (initial_fstate dec) buf
@@ -31,7 +31,7 @@ Proof. intros Hwf Ha HF Hc. exact (history_independent_from_file Vp8Decode.decod
 
 Theorem clauses_from_file_closed c ms :
   wf c = true -> anim c = true -> Forall2 (frame_decodes_spec (fst (dims c)) (snd (dims c))) (frames c) ms ->
-  fst (dims c) * snd (dims c) * 4 < 4294967296 ->
+  fst (dims c) * snd (dims c) * 4 < 18446744073709551616 ->
   exists dec, M.new (serialize c) = Ok dec /\
     forall ops buf i, len buf = buffer_size c ->
       let F := anim_file c ms in
